@@ -4,6 +4,7 @@ CONSTANTS
   InstOf <- TraceInstOf
   Limit <- TraceLimit
   MaxCancel = 1000
+  MaxFail = 9
 INIT TraceInit
 NEXT TraceNext
 INVARIANT Inv_Limit
